@@ -27,7 +27,7 @@ func init() {
 			"(with the features they depend on) and/or new features); distinct = shape + both feature sets; non-trivial = at least one shared ID whose upper version has different tags",
 		Assumptions: []string{"upper versions keep the geometry of the base version (each layer is a self-contained valid world)"},
 		Quick:       400, Thorough: 40000,
-		Required: []string{"shape_overlapping", "shape_disjoint", "shape_upper-subset-of-base", "shape_upper-superset-of-base", "shape_three-layers",
+		Required: []string{"growing_upper_layer", "shape_overlapping", "shape_disjoint", "shape_upper-subset-of-base", "shape_upper-superset-of-base", "shape_three-layers",
 			"shared_ids", "shared_id_differs", "restricted_enumerations", "shared_upper_matches_query_base_does_not", "shared_base_matches_query_upper_does_not"},
 		Run: func(c *core.Ctx) {
 			r := c.R
@@ -185,6 +185,36 @@ func init() {
 			}
 			for _, d := range model.Conform(world, absent, wm.StandardQueries(), true) {
 				c.Violate(d.Class, map[string]any{"shape": shape}, "%s overlay: %s", shape, d.Detail)
+			}
+			// the same two layers with an upper layer that is still being filled: an
+			// overlay over a mutable world is queried before, while and after it gains
+			// features, and has to follow it
+			if len(layers) == 2 && c.Index%3 == 0 {
+				baseWorld, err := wm.Basic(layers[0], 1)
+				upper := ingest.NewBasicMutableWorld()
+				if err != nil {
+					c.Violate("setup-failed", nil, "building the base layer failed: %v", err)
+					return
+				}
+				growing := ingest.NewOverlayWorld(upper, baseWorld)
+				gm := wm.ModelOf(layers[0])
+				for _, d := range gm.Conform(growing, absent, wm.StandardQueries(), true) {
+					c.Violate("growing-upper:empty:"+d.Class, map[string]any{"shape": shape}, "%s overlay with a still empty upper layer: %s", shape, d.Detail)
+				}
+				half := len(layers[1]) / 2
+				for i, sp := range layers[1] {
+					if err := upper.AddFeature(sp.Ingest()); err != nil {
+						c.Violate("setup-failed", nil, "adding %s to the upper layer failed: %v", sp.ID, err)
+						return
+					}
+					gm.Add(sp)
+					if i+1 == half || i+1 == len(layers[1]) {
+						for _, d := range gm.Conform(growing, absent, wm.StandardQueries(), true) {
+							c.Violate("growing-upper:"+d.Class, map[string]any{"shape": shape, "upper_features_added": i + 1}, "%s overlay after its upper layer gained %d features: %s", shape, i+1, d.Detail)
+						}
+					}
+				}
+				c.Count("growing_upper_layer")
 			}
 			var sb strings.Builder
 			for _, l := range layers {
